@@ -213,7 +213,7 @@ def MsgInv (s : Sys) : Prop :=
   (∀ c, (s.hub.chans c).closed = false →
     (s.hub.chans c).got ++ (s.hub.chans c).queue = (s.hub.chans c).sent) ∧
   (∀ c, (s.hub.chans c).closed = true →
-    (s.hub.chans c).queue = [] ∧ (s.hub.chans c).got <+: (s.hub.chans c).sent) ∧
+    ((s.hub.chans c).got ++ (s.hub.chans c).queue) <+: (s.hub.chans c).sent) ∧
   (∀ t topic p seq i prune must, (s.tasks t).pc = .pubIter topic p seq i prune must →
     seq + 1 = s.log.length ∧ s.log[seq]? = some (topic, p) ∧
     ∀ j e, i ≤ j → s.hub.entries[j]? = some e →
@@ -298,8 +298,8 @@ theorem msgInv_step {s s' : Sys} {t : Nat} (hl : LockInv s) (hid : IdInv s) (his
       have h2' : (s.tasks t).pc.holds = true := by rw [hpc]; rfl
       have := hu h1' h2'
       contradiction
-  all_goals (grind [upd_apply, Pc.holds, recvChan_sent, recvChan_closed, recvChan_stream, closeChan,
-    List.prefix_append, Delivers, mkMsg])
+  all_goals (grind [upd_apply, Pc.holds, recvChan_sent, recvChan_closed, recvChan_stream, closeChan, shutChan,
+    List.prefix_append, List.prefix_refl, Delivers, mkMsg])
 
 /-! ## Ids that are gone for good -/
 
@@ -376,7 +376,7 @@ theorem step_none_iff (s : Sys) (t : Nat) :
       ((s.tasks t).pc = .idle ∧ (s.tasks t).prog = []) ∨
       (s.lock.isSome = true ∧ (s.tasks t).pc.holds = false ∧
         ¬ ((s.tasks t).pc = .idle ∧ ∃ r, (s.tasks t).prog = r ∧
-          match r with | .sub .. :: _ | .recv .. :: _ | .close .. :: _ | [] => True | _ => False)) := by
+          match r with | .sub .. :: _ | .recv .. :: _ | .close .. :: _ | .shut .. :: _ | [] => True | _ => False)) := by
   unfold step
   split
   all_goals (try split)
@@ -538,7 +538,7 @@ theorem got_sublist_sent {s : Sys} (hm : MsgInv s) (c : Nat) :
   obtain ⟨_, _, _, h4, h5, _⟩ := hm
   cases hc : (s.hub.chans c).closed
   · rw [← h4 c hc]; exact List.sublist_append_left _ _
-  · exact (h5 c hc).2.sublist
+  · exact (List.sublist_append_left _ _).trans (h5 c hc).sublist
 
 theorem queue_subset_sent {s : Sys} (hm : MsgInv s) (c : Nat) :
     ∀ m ∈ (s.hub.chans c).queue, m ∈ (s.hub.chans c).sent := by
@@ -546,7 +546,7 @@ theorem queue_subset_sent {s : Sys} (hm : MsgInv s) (c : Nat) :
   intro m hq
   cases hc : (s.hub.chans c).closed
   · rw [← h4 c hc]; exact List.mem_append_right _ hq
-  · rw [(h5 c hc).1] at hq; simp at hq
+  · exact (h5 c hc).subset (List.mem_append_right _ hq)
 
 /-! ## Frame and inversion facts about one step -/
 
@@ -566,7 +566,7 @@ theorem step_sent {s s' : Sys} {t : Nat} (h : step s t = some s') (c : Nat) (m :
   step_cases h
   all_goals (simp only [Sys.setPc, Sys.finish, Sys.setHub, Sys.setLock, sendTo_chans] at hm)
   all_goals (try (exact Or.inl hm))
-  all_goals (try (simp only [upd_apply] at hm; split at hm <;> simp_all [closeChan]; done))
+  all_goals (try (simp only [upd_apply] at hm; split at hm <;> simp_all [closeChan, shutChan]; done))
   · rename_i e he
     split at hm
     · simp only [upd_apply] at hm
@@ -663,7 +663,7 @@ theorem step_closed_mono {s s' : Sys} {t : Nat} (h : step s t = some s') (c : Na
   step_cases h
   all_goals (simp only [Sys.setPc, Sys.finish, Sys.setHub, Sys.setLock, sendTo_chans])
   all_goals (try (exact hc))
-  all_goals (try (simp only [upd_apply]; split <;> simp_all [closeChan]; done))
+  all_goals (try (simp only [upd_apply]; split <;> simp_all [closeChan, shutChan]; done))
   · split
     · simp only [upd_apply]; split <;> simp_all
     · exact hc
@@ -936,6 +936,10 @@ theorem atomic_refines_simple {s : Sys} {t : Nat} {op : Op} {rest : List Op}
     refine ⟨1, ?_⟩
     simp only [Completes, exec, List.replicate, List.foldl, stepOrStay, step, hpc, hprog, apply]
     split <;> simp [Sys.finish, Sys.setHub, hlock, hprog] <;> (intro t' ht'; simp [upd_apply, ht'])
+  | shut c =>
+    refine ⟨1, ?_⟩
+    simp only [Completes, exec, List.replicate, List.foldl, stepOrStay, step, hpc, hprog, apply]
+    split <;> simp [Sys.finish, Sys.setHub, hlock, hprog] <;> (intro t' ht'; simp [upd_apply, ht'])
 
 
 theorem pub_exit {s : Sys} {t : Nat} {topic : Topic} {p seq : Nat} {prune must : List Nat}
@@ -1085,7 +1089,7 @@ theorem step_sentOf {s s' : Sys} {t : Nat} (h : step s t = some s') (k : Nat)
   step_cases h
   all_goals (simp only [Sys.setPc, Sys.finish, Sys.setHub, Sys.setLock, sendTo_chans])
   all_goals (try rfl)
-  all_goals (try (simp only [upd_apply]; split <;> simp_all [closeChan]; done))
+  all_goals (try (simp only [upd_apply]; split <;> simp_all [closeChan, shutChan]; done))
   · rename_i e he
     split
     · simp only [upd_apply]
